@@ -36,6 +36,13 @@ def run(tier, seed):
         cx.add_report(rep)
         cx.cov["invariant_evaluations"] = cx.cov.get("invariant_evaluations", 0) + rep["extra"]["nchecked"]
         usable += rep["extra"]["nusable"]
+    cx.selftest_corruption("Trace_C11.tla", shards[0],
+                           lambda ev: (ev["v"].get("amu2LB") or ev["v"].get("amu2LF") or ev["v"].get("amu1L")) if ev["e"] == "Point" and ev["di"] == 11 else None,
+                           "Band", every=True)
+    for ln in open(tr):
+        ev = json.loads(ln)
+        if ev["e"] == "Point" and ev["di"] in (0, 11, 22) and len(cx.cov["samples"]) < 6:
+            cx.sample({"path": ev["sig"], "d": core.dy(ev["d"]), "m": core.dy(ev["m"]), "values": {k: core.dy(v) for k, v in list(ev["v"].items())[:4]}})
     voided = nocoinc = 0
     for ln in open(tr):
         ev = json.loads(ln)
